@@ -269,9 +269,35 @@ def graph_function_obligations(ck, facts, keys, schemas, rule='R-EFFECT'):
     return decided
 
 
+_SEAM_CACHE = {}
+
+
+def composition_obligations(ck, facts):
+    """plug as a linear map on seams that merge into parallel edges of either colour (qxlib/plugsem.py): [[plug(g1, g2)]] = [[g2]] o [[g1]]"""
+    from .. import plugsem, minirust
+    site = ck.site('graph::GraphLike::plug') if ck.has_fn('graph::GraphLike::plug') else 'quizx/src/graph.rs'
+    every = 1 if ck.tier == 'thorough' else 3
+    key = (id(facts), every)
+    if key not in _SEAM_CACHE:
+        try:
+            _SEAM_CACHE[key] = plugsem.run(facts, every=every)
+        except (minirust.NoEval, minirust.Proceed, TypeError, KeyError, IndexError, AttributeError) as ex:
+            _SEAM_CACHE[key] = ex
+    r = _SEAM_CACHE[key]
+    if isinstance(r, Exception):
+        ck.ob3('E3-compose', 'plug/denotes-the-composition', None, site, 'the evaluator declined (%s: %s)' % (type(r).__name__, str(r)[:160]))
+        return
+    n, bad = r
+    ck.ob('E3-compose', 'plug/denotes-the-composition', not bad, site, ('%s [%d of %d seams in this run]' % (bad[0][1], len(bad), n)) if bad else '', sample={'seams': n})
+    ck.floor('E3-compose-seams', n, 1300 if every == 1 else 450)
+
+
 def run(ck):
     facts = ck.facts
     from refs import effects_ref as E
+    ck.decided('D6 (evaluation, small scope) plug denotes sequential composition, scalar included, on seams of one to three wires between two spiders of either colour with every combination of boundary edge types — every such seam '
+               'merges into parallel edges that add_edge_smart fuses, cancels or turns into a phase — and on bare wires, swaps and multi-spider sides, on both back ends; the linear maps are computed by the brute-force contraction of qxlib/zxsem.py')
+    composition_obligations(ck, facts)
     ck.decided('D1 is_identity establishes |in| = |out|, num_vertices = 2n and a PLAIN edge between input i and output i for every i (must-facts)',
                'D2 plug_inputs/plug_outputs index the basis list only under a dominating bound test; the four plug functions agree pairwise under inputs<->outputs; each plugged element costs sqrt2^-1 (count of non-SKIP in-range entries); basis table Z0/Z1 -> toggled edge with phase 0/pi, X0/X1 -> Z spider with phase 0/pi',
                'D3 adjoint negates every phase, exchanges inputs and outputs (old values) and conjugates the scalar; to_adjoint is clone + adjoint',
